@@ -265,6 +265,14 @@ def run_case(case):
                 objs.update(reachable(ent))
             fails = list(itertools.chain.from_iterable(
                 itertools.combinations(sorted(objs), r) for r in range(len(objs) + 1)))
+        if case["faults"]:
+            v0, _i0 = one_exec(iname, placement, [])
+            if any(v[0].startswith("object-not-pushed-to-designated-remote/") for v in v0):
+                # this placement already fails fault-free (reported by the fault-free part, see the
+                # known findings): a failure round on top of it says nothing new
+                res["vac"]["fault_rounds_skipped_on_defective_placement"] = res["vac"].get(
+                    "fault_rounds_skipped_on_defective_placement", 0) + 1
+                continue
         for fail in fails:
             viol, info = one_exec(iname, placement, list(fail))
             res["n"] += 1
